@@ -136,7 +136,7 @@ def _tlc_cmd(extra_java=None, heap="4g"):
     for j in ("/opt/veriftools/tla/CommunityModules-deps.jar", "/opt/veriftools/tla/CommunityModules.jar"):
         if os.path.exists(j):
             jars.append(j)
-    cmd = ["java", "-XX:+UseParallelGC", f"-Xmx{heap}", "-Xss64m"]
+    cmd = ["java", "-XX:+UseParallelGC", f"-Xmx{heap}", "-Xss512m"]
     if extra_java:
         cmd += extra_java
     cmd += ["-cp", ":".join(jars), "tlc2.TLC"]
